@@ -21,7 +21,7 @@ RULE = ('(eighth alphabet: the facts enumerated through clauses wrap(X) :- p(X) 
         'retract(p(a)) once(retract(p(X))) \\+retract(p(X)) fail} compiled and run from each initial store under a deterministic step budget (termination), '
         'answers and final store compared with RefProlog; plus the classic drain and counter-update loops. '
         '[thorough: (c) explicit-state search over the model, one representative history per distinct model state, to '
-        'depth 7 on five stores.] states = distinct canonical model states (store + suspended enumerations); transitions = events '
+        'depth 7 on the stores [] and [a] and to depth 6 on three more.] states = distinct canonical model states (store + suspended enumerations); transitions = events '
         'executed on the real engine; non-trivial = a modification happened while an enumeration was suspended')
 ASSUMPTIONS = ['an enumeration "starts" when its first answer is requested (creating a generator object without '
                'advancing it is not an observable start)',
@@ -72,7 +72,7 @@ BIG_STORE = 7
 
 def bounds(tier):
     return {'history_depth': 5 if tier == 'quick' else '6 on the stores [a,b] and [a,b,a]; 5 on the other stores and alphabets', 'body_goals': 3 if tier == 'quick' else 4,
-            'state_search_depth': 0 if tier == 'quick' else 7}
+            'state_search_depth': 0 if tier == 'quick' else '7 on the stores [] and [a], 6 on three more'}
 
 
 class Run:
@@ -293,7 +293,7 @@ def plan(tier):
     sh += [('b', g, k, 32) for k in range(32)]
     sh += [('c',)]
     if tier != 'quick':
-        sh += [('s', 7, ii) for ii in range(5)]
+        sh += [('s', 7, ii) for ii in range(2)] + [('s', 6, ii) for ii in range(2, 5)]
     return sh
 
 
